@@ -1,6 +1,7 @@
 package harness
 
 import (
+	"sort"
 	"fmt"
 	"time"
 
@@ -13,7 +14,7 @@ import (
 func init() {
 	Register(&PropDef{
 		ID: "C02", QuickRuns: 3200, Level: "exploration",
-		Rule: "one run = 6-30 requests of all dispatched request types from 1-3 peers with drawn 24-bit sequence numbers (incl. 0 and 2^24-1) and CP SEIDs, mixing accepted and rejected requests (unknown session, no association, unknown Node ID), explicit duplicates of idempotent requests and response-type messages sent to the agent; the oracle is evaluated on the decoded bytes at the peer socket: exactly one response of the matching type and sequence per delivered request, header SEID, Node ID / UP F-SEID / Created PDR content of establishment responses, addressing by UP F-SEID, CP F-SEID update on modification, rejection causes. Non-trivial = at least one accepted session operation and >20 task switches or pre-emption; distinct = different sequence of (request kind, outcome).",
+		Rule: "one run = 6-30 requests of all dispatched request types from 1-3 peers with drawn 24-bit sequence numbers (incl. 0 and 2^24-1) and CP SEIDs, mixing accepted and rejected requests (unknown session, no association, unknown Node ID), explicit duplicates of idempotent requests and response-type messages sent to the agent; once per run the agent may be killed (-9) and restarted, the peers re-associate and establish new sessions, and requests addressed with F-SEIDs of the killed incarnation's sessions must be refused as unknown; the oracle is evaluated on the decoded bytes at the peer socket: exactly one response of the matching type and sequence per delivered request, header SEID, Node ID / UP F-SEID / Created PDR content of establishment responses, addressing by UP F-SEID, CP F-SEID update on modification, rejection causes. Non-trivial = at least one accepted session operation and >20 task switches or pre-emption; distinct = different sequence of (request kind, outcome).",
 		Assume: []string{"loss is not injected (it would make 'exactly one' unobservable); duplicates are sent explicitly and each delivered copy counts as a request", "a response is awaited for 8 virtual seconds after the agent is quiescent"},
 		Real: CommonReal, Simulated: CommonSim,
 		Scenario: scenarioC02,
@@ -65,6 +66,8 @@ func scenarioC02(r *Run) {
 	aim := r.Conf.EnableHBTimer && r.Ch.Choose(2, "aim") == 1
 	usedSeq := map[string]bool{}
 	hasConn := map[*Peer]bool{} // the agent holds a connected socket for this peer
+	stale := map[*Peer][]uint64{} // UP F-SEIDs handed out by an incarnation of the agent that was killed since
+	restarted := false
 	// send performs one request, records it and returns the response.
 	send := func(p *Peer, m message.Message, kind string, copies int) *RxMsg {
 		key := fmt.Sprintf("%d/%d/%d", p.Idx, m.MessageType(), m.Sequence())
@@ -119,6 +122,53 @@ func scenarioC02(r *Run) {
 	}
 	n := 6 + r.Ch.Choose(25, "nreq")
 	for k := 0; k < n && r.AgentAlive() && len(r.Violations) == 0; k++ {
+		// once per run: the agent is killed (-9) and started again; the control
+		// plane re-associates and goes on; F-SEIDs of the dead incarnation's
+		// sessions then name nothing and must be refused as unknown
+		if !restarted && len(r.LiveSessions()) > 0 && r.Ch.Choose(14, "agent-restart") == 1 {
+			restarted = true
+			for _, q := range r.Peers {
+				for _, s := range q.Sessions {
+					stale[q] = append(stale[q], s.UPSEID)
+				}
+				sort.Slice(stale[q], func(i, j int) bool { return stale[q][i] < stale[q][j] })
+				q.Sessions = map[uint64]*CPSession{}
+				q.Associated = false
+				hasConn[q] = false
+			}
+			r.KillAgent()
+			r.Sim.RunFor(time.Second)
+			r.StartAgent()
+			r.Skel("restart")
+			if !r.AgentAlive() {
+				break
+			}
+			for _, q := range r.Peers {
+				if len(stale[q]) == 0 {
+					continue
+				}
+				am := q.AssocSetupMsg()
+				if rx := send(q, am, "AssociationSetupRequest", 1); rx == nil {
+					continue
+				} else if c, _ := CauseOf(rx.Msg); c != ie.CauseRequestAccepted {
+					continue
+				}
+				q.Associated = true
+				hasConn[q] = true
+				for i := 0; i < 1+r.Ch.Choose(2, "after-restart-sessions"); i++ {
+					ns := g.Session(q, SessShape{TEIDChoose: true})
+					em := q.EstablishMsg(ns)
+					if rx := send(q, em, "SessionEstablishmentRequest", 1); rx != nil {
+						if resp, ok := rx.Msg.(*message.SessionEstablishmentResponse); ok {
+							if c, _ := CauseOf(resp); c == ie.CauseRequestAccepted {
+								q.Establish2(ns, resp)
+								r.Accepted++
+							}
+						}
+					}
+				}
+			}
+		}
 		p := r.Peers[r.Ch.Choose(len(r.Peers), "peer")]
 		var sessions []*CPSession
 		for _, s := range r.LiveSessions() {
@@ -266,6 +316,13 @@ func scenarioC02(r *Run) {
 			}
 		case 7: // unknown session
 			bogus := uint64(0xDEAD0000) + uint64(r.Ch.Choose(1000, "bogus"))
+			if len(stale[p]) > 0 && r.Ch.Choose(3, "stale") != 0 {
+				bogus = stale[p][r.Ch.Choose(len(stale[p]), "which-stale")]
+				// (the new incarnation draws its F-SEIDs from 64 random bits: it never
+				// hands one of these out again; if it does, the request below - meant for
+				// the dead session - is executed on somebody else's session)
+				r.Probe("request-to-fseid-of-killed-incarnation")
+			}
 			var m message.Message
 			kindName := "SessionDeletionRequest(unknown)"
 			if r.Ch.Choose(2, "bk") == 0 {
